@@ -1140,6 +1140,18 @@ func Run(c *hx.Ctx) {
 		runHistory(c, h)
 		c.Count("stream=corpus")
 	}
+	// one multi-address RemoveClusterHosts / TriggerHostDel call per case (rm.go)
+	if c.Thorough() {
+		runRmAll(c, 6, 0)
+	} else {
+		runRmAll(c, 4, 300)
+	}
+	// the persisted file: updates at every point of a dump round, failing writes (dump.go)
+	if c.Thorough() {
+		runDumpAll(c, 4, 2000, 10)
+	} else {
+		runDumpAll(c, 3, 200, 8)
+	}
 	for round := 0; round < c.N(3, 10); round++ {
 		runConcurrent(c, round)
 	}
